@@ -102,6 +102,12 @@ def gen_rtr(rng, n):
     for ty in (5, 9, 11, 255):
         p = rtr_pdu(rng, ty, 1)
         out.append([p]); out.append([p + rtr_pdu(rng, 2, 1)])
+        # PDU types the client skips: the same truncations and length-field boundary values
+        for k in range(len(p)):
+            out.append([p[:k]])
+        for L in (0, 1, 7, 8, 9, len(p) - 1, len(p) + 1, 0xffffffff):
+            q = list(p); q[4:8] = be(L & 0xffffffff, 4)
+            out.append([q]); out.append([q + rtr_pdu(rng)]); out.append(fragment(rng, q + rtr_pdu(rng, 2, 1)))
     for _ in range(n):
         pdus = [rtr_pdu(rng) for _ in range(rng.randint(1, 5))]
         x = rng.random()
